@@ -675,6 +675,22 @@ def query_qual(op, klass):
     return ""
 
 
+def answer_qual(ops, real, fa):
+    """what exactly differs between the two answers, where that identifies a mechanism:
+    ':only-defined-units-missing' — both are compatible-units listings, the real one is the fresh one
+    minus units that this very history added with define() (and nothing else differs)"""
+    if real is None or fa is None or _inner(ops[-1])[0] != "compat":
+        return ""
+    if real[0] != "names" or fa[0] != "names":
+        return ""
+    r, f = set(real[1]), set(fa[1])
+    defined = {DEFS[_inner(o)[1]]["keys"][0] for o in ops[:-1]
+               if _inner(o)[0] == "define" and not DEFS[_inner(o)[1]].get("prefix")}
+    if r < f and (f - r) <= defined:
+        return ":only-defined-units-missing"
+    return ""
+
+
 def classify_strings():
     """class of every pool string, decided on a file-built registry that contains all of DEFS and
     was never queried (parse_unit_name does not write): 'doubly-prefixed' — some name in it is
@@ -1135,12 +1151,13 @@ class Checker:
                     return None
         return None
 
-    def key_of(self, ops):
+    def key_of(self, ops, real=None, fa=None):
         ks = kinds_of(ops, self.klass)
-        return "history:" + "+".join(ks[:-1]) + "→" + ks[-1] + query_qual(ops[-1], self.klass)
+        return ("history:" + "+".join(ks[:-1]) + "→" + ks[-1] + query_qual(ops[-1], self.klass)
+                + answer_qual(ops, real, fa))
 
     def add_minimal(self, small, real, fa):
-        key = self.key_of(small)
+        key = self.key_of(small, real, fa)
         self.minimals.append((tuple(small), real, fa, key))
         ks = kinds_of(small, self.klass)
         self.patterns.add(tuple(ks[:-1]) + (ks[-1] + query_qual(small[-1], self.klass),))
@@ -1320,13 +1337,13 @@ def _run(ck, rng, thorough, klass, tk, systems, fresh, chk, coq_ok):
     # exhaustive exploration: one fork tree per first operation
     T["histories"] = time.time()
     trees = parallel(lambda op: explore(EXH_ALPHABET, depth, [op]), EXH_ALPHABET)
-    depth_b = 6 if thorough else 5
+    depth_b = 5
     alpha_b = BASE_ALPHABET if thorough else [o for o in BASE_ALPHABET if not (o[0] == "base" and o[2] is not None)]
     roots_b = [[a, b] for a in alpha_b for b in alpha_b]
     trees_b = parallel(lambda pre: explore(alpha_b, depth_b, pre), roots_b)
-    depth_r = 5 if thorough else 4
+    depth_r = 4          # (5 = 37 000 histories: too slow for the 20 min envelope under load)
     trees_r = parallel(lambda op: explore(RULES_ALPHABET, depth_r, [op]), RULES_ALPHABET)
-    depth_f = 5 if thorough else 4
+    depth_f = 4
     trees_f = parallel(lambda op: explore(FORMAT2_ALPHABET, depth_f, [op], precreate=True), FORMAT2_ALPHABET)
     depth_t = 4 if thorough else 3
     trees_t = parallel(lambda op: explore(TYPED_ALPHABET, depth_t, [op]), TYPED_ALPHABET)
